@@ -18,6 +18,14 @@ CLAIMED = {
             "trusted: click, StatusFilter (8 lines, modelled), endpoint-cover meta-lemma (every target lies in the cone of some endpoint), z3, pyvc encoding", "4 C05"),
     "C09": ("proof", "TrackingBackend.submit/close/__exit__, submit_backend, schedule and the run command are proved: a rejected submission leaves no trace (no tracked id, no hash), the hash is recorded only after the backend accepted, and on every exit of `gwf run` after the backend was created - normal, BackendError, OSError at close - the tracked-jobs file holds exactly the backend's ids. A hard kill between two submissions (ids durable only at exit) and torn writes are NOT covered: see level_note.",
             "not decided: process kill between submissions / during json.dump (crash invariants on the state files are not generated yet); trusted: json round trip, scheduler id freshness, z3, pyvc encoding", "4 C09"),
+    "C11": ("proof", "try_handle_task is proved, under a rely/guarantee model of asyncio (every await is an interference point and a possible CancelledError), to create the process only when every dependency is COMPLETED (precondition of create_subprocess_shell, carried across the acquire await by the stability rely) and to end non-completed without a process otherwise.",
+            "trusted: asyncio facts (cooperative scheduling, wait(ALL_COMPLETED), cancellation delivery, done is permanent), the rely relation is justified by the contracts of enqueue_task/cancel_task (write-site guarantee) but the counting argument over all coroutines is a meta-step; z3; pyvc encoding", "4 C11"),
+    "C12": ("proof", "ghost `held` per coroutine: release() is proved to be called only by a coroutine that acquired a core and, once a process exists, only after it ended or was sent the kill sequence; the process is created only while holding a core; no exit leaves a core held. The converse (no idle core while a ready task waits) is asyncio.Semaphore's wake-up guarantee: assumed.",
+            "trusted: asyncio.Semaphore arithmetic and fairness; sum over coroutines (semaphore value + held == max_cores) is a meta-step; z3; pyvc encoding", "4 C12"),
+    "C13": ("proof", "every exit of try_handle_task (normal and the only escaping exception, a second CancelledError) leaves the task in a final state; COMPLETED only with a process that ran to the end with exit status 0; cancellation/time-out paths send the kill sequence; cancel_task changes nothing for a finished task. Liveness (eventually) and process-tree cleanup are not decided.",
+            "not decided: liveness, that kill() reaches every descendant process; trusted: asyncio, subprocess; z3; pyvc encoding", "4 C13"),
+    "C14": ("proof", "enqueue_task returns an id new to the pool and adds exactly one SUBMITTED entry; get_task_states returns the table; handle_connection, for an arbitrary JSON request, touches the pool only through enqueue_task/cancel_task and closes the server only on an explicit shutdown request; an unknown id raises without changing anything.",
+            "trusted: asyncio isolates a failing connection handler from the server and the other handlers; socket-level faults; itertools.count never repeats; JSON values of the wrong type are abstracted (uninterpreted conversions); z3; pyvc encoding", "4 C14"),
     "C15": ("proof", "the clean command is proved to call os.remove only on unprotected declared outputs of the selected (non-endpoint unless --all) targets, to change nothing when the prompt is declined or graph building fails; spec-hash invalidation per target is in FileSpecHashes.invalidate's contract.",
             "trusted: Target.flattened_outputs/protected contracts (same Canon), os.remove (may fail: file then stays), click.confirm, filters' dispatch lemmas, z3, pyvc encoding", "4 C15"),
     "C16": ("proof", "touch_workflow/_visit (with lru_cache semantics) are proved to touch exactly the declared outputs of the selected cone, every dependency's outputs for the last time before the first touch of any output of a dependent, and to record the spec hash of every visited target; the consequence `status reports completed` is a lemma not yet generated.",
@@ -34,10 +42,6 @@ NOT_YET = {
     "C07": "TrackingBackend.submit (ids of exactly the given dependencies reach ops.submit_target) is proved under C09; the per-backend command lines (sbatch/qsub/bsub/local) are not under contract yet",
     "C08": "TrackingBackend.status/_init_tracked are proved (under C09/C05); the per-backend state tables and merge logic are not under contract yet",
     "C10": "option resolution in submit_backend is proved (under C05); compile_script of the three cluster backends and log-path agreement are not under contract yet",
-    "C11": "local worker pool: asyncio model not built yet in this round",
-    "C12": "local worker pool: asyncio model not built yet in this round",
-    "C13": "local worker pool: asyncio model not built yet in this round",
-    "C14": "local worker pool server: not built yet in this round",
     "C19": "workflow definition (Workflow.target/map, name/path validators, find_workflow): contracts not written yet in this round",
 }
 
